@@ -44,7 +44,7 @@ DETERMINISM = {"quick": 4, "thorough": 20}
 PROBES = ["tlslite_client", "tlslite_server", "tls10", "tls11", "tls12",
           "tls13", "client_auth", "alpn", "resumed", "hrr", "ecdsa", "eddsa",
           "dsa", "rsapss", "ccm", "chacha", "cbc_etm", "big_payload",
-          "version_skew", "dhe_tls12_volume"]
+          "version_skew", "dhe_tls12_volume", "peer_supports_more"]
 COMPONENTS_REAL = ["tlslite (client and server)", "OpenSSL 3.0.20 via "
                    "ssl.SSLObject + MemoryBIO (foreign implementation)"]
 COMPONENTS_STUB = ["socket between them (FakeSocket/Pipe)",
@@ -161,6 +161,13 @@ def run(job, streams=None):
         # negotiated one)
         tset["maxVersion"] = [3, 3]
         probes["version_skew"] = 1
+    # ... or the foreign peer supports more than tlslite (a TLS 1.3 capable
+    # OpenSSL against a tlslite capped at TLS 1.2)
+    over_hi = ver
+    if ver == (3, 3) and not job.get("volume") and \
+            ch.draw(3, "cfg.oskew") == 1:
+        over_hi = (3, 4)
+        probes["peer_supports_more"] = 1
     if job.get("volume"):
         probes["dhe_tls12_volume"] = 1
     tset["cipherNames"] = [suite.cipher]
@@ -220,7 +227,7 @@ def run(job, streams=None):
                                           tapes_in[k])
                 else:
                     oep = ossl.OsslEndpoint(
-                        sim, "s%d" % k, link.ssock, True, ver, ver,
+                        sim, "s%d" % k, link.ssock, True, ver, over_hi,
                         key=("server", skey) if skey else None,
                         verify_client="rsa" if cauth else None,
                         no_tickets=(opt == 4), ctx=octx, **okw)
@@ -246,7 +253,7 @@ def run(job, streams=None):
                                           tapes_in[k])
                 else:
                     oep = ossl.OsslEndpoint(
-                        sim, "c%d" % k, link.csock, False, ver, ver,
+                        sim, "c%d" % k, link.csock, False, ver, over_hi,
                         key=("client", "rsa") if cauth else None,
                         session=sess_o, sni=None, ctx=octx, **okw)
                 tapes.append(oep.tape)
